@@ -32,6 +32,7 @@ type mercScn struct {
 	// prices this round, and under v1 their chain head IS that block (nothing mined since) — while all other correct
 	// observers sit behind a lagging server and agree on an older value; every one of the f+1 votes is needed
 	twoCamps bool
+	cfgN     int // configured committee size when larger than 3f+1
 }
 
 // indepEncInt192 / indepDecInt192: the wire form of an int192 (24 bytes, big-endian two's complement), written
@@ -188,7 +189,11 @@ func mercRandScn(g *G, v int) *mercScn {
 }
 
 func (s *mercScn) cfg() J {
-	return J{"f": s.f, "n": 3*s.f + 1, "min": s.min.String(), "max": s.max.String(), "window": s.window.String()}
+	n := 3*s.f + 1
+	if s.cfgN > n {
+		n = s.cfgN // a committee larger than 3f+1 (5/1, 9/2, 16/4 …)
+	}
+	return J{"f": s.f, "n": n, "min": s.min.String(), "max": s.max.String(), "window": s.window.String()}
 }
 
 func mercSatAdd(t uint32, d int) uint32 {
@@ -549,6 +554,12 @@ func genMercReports(g *G) {
 				s.b, s.prev, s.twoCamps = 0, nil, true
 				s.n = 2*s.f + 2 + g.R.Intn(s.f)
 				tag = "two-camps-bootstrap"
+				if g.R.Intn(2) == 0 {
+					// a committee of more than 3f+1: the older camp alone has 2f+1 votes, the newer one f+1
+					s.n = 3*s.f + 2 + g.R.Intn(2)
+					s.cfgN = s.n
+					tag = "two-camps-bootstrap-wide-committee"
+				}
 			}
 		case 2: // partial outage of the max-finalized lookup among the correct observers
 			if s.n >= 2*s.f+2 {
@@ -771,6 +782,10 @@ func genMercHistories(g *G) {
 			if r == 0 && prev == nil && g.R.Intn(3) == 0 && s.mft > 20 {
 				s.b, s.outage, s.split, s.twoCamps = 0, 0, false, true
 				s.n = 2*s.f + 2 + g.R.Intn(s.f)
+				if g.R.Intn(2) == 0 {
+					s.n = 3*s.f + 2 + g.R.Intn(2)
+					s.cfgN = s.n
+				}
 			}
 			aos, hidx := s.round(g)
 			rounds = append(rounds, aos)
